@@ -689,7 +689,12 @@ fn encode_genotype_str(genotype: &str) -> io::Result<Vec<i8>> {
             .parse()
             .map_err(|e| io::Error::new(io::ErrorKind::InvalidInput, e))?;
 
-        let mut i = (j + 1) << 1;
+        // `(allele + 1) << 1 | phased` has to fit the int8 genotype code: allele indices above 62
+        // do not.
+        let mut i = j
+            .checked_add(1)
+            .and_then(|n| n.checked_mul(2))
+            .ok_or_else(|| io::Error::new(io::ErrorKind::InvalidInput, "invalid allele index"))?;
 
         if is_phased {
             i |= 0x01;
@@ -724,7 +729,12 @@ fn encode_genotype(genotype: &dyn Genotype) -> io::Result<Vec<i8>> {
             return Ok(i8::from(phasing == Phasing::Phased));
         };
 
-        let mut n = (i + 1) << 1;
+        // `(allele + 1) << 1 | phased` has to fit the int8 genotype code: allele indices above 62
+        // do not.
+        let mut n = i
+            .checked_add(1)
+            .and_then(|n| n.checked_mul(2))
+            .ok_or_else(|| io::Error::new(io::ErrorKind::InvalidInput, "invalid allele index"))?;
 
         if phasing == Phasing::Phased {
             n |= 0x01;
